@@ -20,6 +20,7 @@ EXPLANATION = ("Clamp discipline decided on def-use-expanded expressions: (R1) t
                "ds/dtau = D resp. D(1-s)/(1-P) with its entry condition, and is selected by the law's region predicates; (R6) the EVSE stores exactly the validated pilot it forwards to the EV."
                ' Added in round 3: the constructor / reset guards are decided on decision tables with propositional path conditions; the recorded rate is the value the battery returned for this pilot and every battery entry point delegates once (shared with C02); each gated alternative of the stepwise power is judged on its own.'
                ' Added after the mutation matrix: each clamp operand is the documented quantity as an identity (fill rate, pilot power, declining maximum).')
+EXPLANATION += ' Added in rounds 4-5: the cap of the pilot rate may live in a second variable (capped = min(raw, maximum)); per-region stores of the stepwise routine are judged per reaching definition; generic rules G4 / G5.'
 NOT_DECIDED = ("the last step from `every piece solves ds/dtau = r(s), 0 <= r <= D` (R9, decided) to `0 <= gain <= D` is the comparison "
                "theorem for ODEs, taken from analysis and not mechanised; floating-point rounding of exp near SoC = 1")
 
